@@ -62,7 +62,7 @@ pub struct Scenario {
     pub prefs: Vec<u8>,
 }
 
-#[derive(Clone, Debug)]
+#[derive(Clone, Debug, Serialize, Deserialize)]
 pub struct ItemResult {
     pub role: Role,
     pub status: Status,
@@ -79,6 +79,7 @@ pub struct Viol {
     pub detail: String,
 }
 
+#[derive(Clone, Debug, Serialize, Deserialize)]
 pub struct ThreadOut {
     pub items: Vec<ItemResult>,
     pub viol: Option<Viol>,
@@ -174,6 +175,7 @@ fn run_thread(plan: ThreadPlan, inputs_json: String, y: &Yielder) -> ThreadOut {
     out
 }
 
+#[derive(Clone, Debug, Serialize, Deserialize)]
 pub struct Exec {
     pub threads: Vec<ThreadOut>,
     pub decisions: Vec<u8>,
@@ -397,7 +399,7 @@ pub fn p_items(program: &[Stmt]) -> Vec<Item> {
     program.iter().enumerate().map(|(i, s)| Item::plain(Role::P(i), s.clone())).collect()
 }
 
-pub fn gen_envs(rng: &mut Rng, program: &[Stmt], inputs_json: &str, ref_steps: &[u64]) -> Vec<Scenario> {
+pub fn gen_envs(rng: &mut Rng, program: &[Stmt], inputs_json: &str) -> Vec<Scenario> {
     let mut envs = vec![];
     let base = |kind: &str, threads: Vec<ThreadPlan>, prefs: Vec<u8>| Scenario {
         kind: kind.to_string(),
@@ -408,9 +410,9 @@ pub fn gen_envs(rng: &mut Rng, program: &[Stmt], inputs_json: &str, ref_steps: &
     };
     let prefs = |rng: &mut Rng| -> Vec<u8> { (0..64).map(|_| rng.below(8) as u8).collect() };
     // swarm: each run enables a random subset of environment kinds (at least two)
-    let mut enabled: Vec<u32> = (0..8).filter(|_| rng.chance(1, 2)).collect();
+    let mut enabled: Vec<u32> = (0..9).filter(|_| rng.chance(1, 2)).collect();
     while enabled.len() < 2 {
-        let k = rng.below(8) as u32;
+        let k = rng.below(9) as u32;
         if !enabled.contains(&k) {
             enabled.push(k);
         }
@@ -472,11 +474,11 @@ pub fn gen_envs(rng: &mut Rng, program: &[Stmt], inputs_json: &str, ref_steps: &
                 if preempt {
                     let mut budget = rng.range(1, 6);
                     while budget > 0 {
+                        // change points do not depend on any earlier execution (a point beyond
+                        // the statement's last step simply never fires)
                         let i = rng.usize_below(p.len());
-                        let steps = ref_steps.get(i).copied().unwrap_or(0);
-                        if steps > 0 {
-                            p[i].yield_at.push(1 + rng.below(steps));
-                        }
+                        let at = if rng.chance(1, 2) { 1 + rng.below(8) } else { 1 + rng.below(400) };
+                        p[i].yield_at.push(at);
                         budget -= 1;
                     }
                 }
@@ -501,6 +503,11 @@ pub fn gen_envs(rng: &mut Rng, program: &[Stmt], inputs_json: &str, ref_steps: &
                 }
                 rng.shuffle(&mut threads);
                 envs.push(base(if preempt { "threads-preemptive" } else { "threads" }, threads, prefs(rng)));
+            }
+            8 => {
+                // the program alone, but in this long-lived process after everything it has
+                // evaluated so far (the reference runs in a pristine process)
+                envs.push(base("process-history", vec![ThreadPlan { hash_seed: 0, clock: ClockScript::canonical(), sessions: vec![p_items(program)] }], vec![0]));
             }
             6 => {
                 // EvalTwice: consecutive and separated by noise
@@ -599,10 +606,66 @@ pub fn gen_program(rng: &mut Rng) -> (Vec<Stmt>, Vec<String>, String) {
 // Shrinking, signature, replay
 // ---------------------------------------------------------------------------------------
 
+/// History a violation depends on: runs (of this batch's seed) executed earlier in the same
+/// process. Empty when the scenario is self-contained.
+#[derive(Clone, Debug, Default, PartialEq, Serialize, Deserialize)]
+pub struct History {
+    pub verif_seed: u64,
+    pub runs: Vec<u64>,
+}
+
+thread_local! {
+    static SHRINK_HISTORY: std::cell::RefCell<History> = std::cell::RefCell::new(History::default());
+}
+
+/// Reference in a pristine process; the scenario in a pristine process that first re-executes
+/// the history (if any). Falls back to this process when no zygote is available.
+pub fn judge_fresh(sc: &Scenario, hist: &History) -> Option<Viol> {
+    let refsc = reference_scenario(&sc.program, &sc.inputs_json);
+    let reference = pristine(&History::default(), &[refsc.clone()]).and_then(|mut v| v.pop()).unwrap_or_else(|| execute(&refsc));
+    let ex = pristine(hist, &[sc.clone()]).and_then(|mut v| v.pop()).unwrap_or_else(|| {
+        for r in &hist.runs {
+            replay_history_run(hist.verif_seed, *r);
+        }
+        execute(sc)
+    });
+    judge(sc, &ex, &reference)
+}
+
 fn violates(sc: &Scenario, clause: &str) -> bool {
-    let reference = execute(&reference_scenario(&sc.program, &sc.inputs_json));
-    let ex = execute(sc);
-    matches!(judge(sc, &ex, &reference), Some(v) if v.clause == clause)
+    let hist = SHRINK_HISTORY.with(|h| h.borrow().clone());
+    matches!(judge_fresh(sc, &hist), Some(v) if v.clause == clause)
+}
+
+/// Execute scenarios in a pristine process (after re-executing `hist` there).
+pub fn pristine(hist: &History, scs: &[Scenario]) -> Option<Vec<Exec>> {
+    if !crate::zygote::available() {
+        return None;
+    }
+    let req = json!({"kind": "c02", "history": hist, "scenarios": scs});
+    let resp = crate::zygote::request(&req.to_string())?;
+    serde_json::from_str::<Vec<Exec>>(&resp).ok()
+}
+
+/// Runs inside the pristine child.
+pub fn pristine_handler(req: &serde_json::Value) -> String {
+    let hist: History = serde_json::from_value(req["history"].clone()).unwrap_or_default();
+    let scs: Vec<Scenario> = serde_json::from_value(req["scenarios"].clone()).unwrap_or_default();
+    for r in &hist.runs {
+        replay_history_run(hist.verif_seed, *r);
+    }
+    let out: Vec<Exec> = scs.iter().map(execute).collect();
+    serde_json::to_string(&out).unwrap_or_default()
+}
+
+/// Re-execute, in this process, exactly what run `run` executed in its worker process.
+pub fn replay_history_run(seed: u64, run: u64) {
+    let mut rng = Rng::derive(seed, "c02", run);
+    let (program, _kinds, inputs) = gen_program(&mut rng);
+    let envs = gen_envs(&mut rng, &program, &inputs);
+    for sc in envs {
+        let _ = execute(&sc);
+    }
 }
 
 /// Remove program statement `i` everywhere (program list, P items, roles renumbered).
@@ -787,10 +850,12 @@ pub fn signature(sc: &Scenario, v: &Viol) -> String {
     format!("{}|{}", v.clause, sc.kind)
 }
 
-pub fn replay_doc(sc: &Scenario, v: &Viol, ex: &Exec, seed: u64, run: u64) -> serde_json::Value {
+pub fn replay_doc(sc: &Scenario, v: &Viol, ex: &Exec, seed: u64, run: u64, hist: &History) -> serde_json::Value {
     json!({
         "property": "C02",
         "engine": "c02",
+        "history": hist,
+        "history_note": "runs of the same VERIF_SEED executed earlier in the same process; they are re-executed before the scenario on replay (empty = the scenario is self-contained)",
         "verif_seed": seed,
         "run": run,
         "scenario": sc,
@@ -823,7 +888,15 @@ pub fn replay(path: &str) -> i32 {
     for (i, s) in sc.program.iter().enumerate() {
         println!("  P[{}] {}", i, show_stmt(s));
     }
-    let reference = execute(&reference_scenario(&sc.program, &sc.inputs_json));
+    let hist: History = serde_json::from_value(doc["history"].clone()).unwrap_or_default();
+    let refsc = reference_scenario(&sc.program, &sc.inputs_json);
+    let reference = pristine(&History::default(), &[refsc.clone()]).and_then(|mut v| v.pop()).unwrap_or_else(|| execute(&refsc));
+    if !hist.runs.is_empty() {
+        println!("  history: {} earlier run(s) of VERIF_SEED={} re-executed first: {:?}", hist.runs.len(), hist.verif_seed, hist.runs);
+        for r in &hist.runs {
+            replay_history_run(hist.verif_seed, *r);
+        }
+    }
     let ex = execute(&sc);
     for (ti, t) in ex.threads.iter().enumerate() {
         for (k, it) in t.items.iter().enumerate() {
@@ -858,7 +931,8 @@ pub fn replay(path: &str) -> i32 {
 #[derive(Default, Serialize, Deserialize)]
 pub struct Batch {
     pub c: Counters,
-    pub violations: Vec<(u64, Scenario, Viol)>,
+    /// (run, scenario, violation, runs executed earlier in the same process)
+    pub violations: Vec<(u64, Scenario, Viol, Vec<u64>)>,
     pub samples: Vec<(u64, serde_json::Value)>,
     pub run_hashes: BTreeMap<u64, u64>,
     pub clock_ns: i128,
@@ -879,17 +953,37 @@ fn program_shape(kinds: &[String]) -> String {
     k.join(",")
 }
 
+/// Runs this process has executed so far, in order (meaningful with one worker per process,
+/// which is how batches are sharded).
+static PROCESS_RUNS: std::sync::Mutex<Vec<u64>> = std::sync::Mutex::new(Vec::new());
+
 pub fn run_one(seed: u64, run: u64, agg: &mut Batch, keep_hashes: bool) {
+    let prior: Vec<u64> = {
+        let mut g = PROCESS_RUNS.lock().unwrap();
+        let p = g.clone();
+        g.push(run);
+        p
+    };
     let mut rng = Rng::derive(seed, "c02", run);
     let (program, kinds, inputs) = gen_program(&mut rng);
+    let envs = gen_envs(&mut rng, &program, &inputs);
     let refsc = reference_scenario(&program, &inputs);
-    let reference = execute(&refsc);
+    // the reference runs in a pristine process (nothing has been evaluated there, ever)
+    let reference = match pristine(&History::default(), &[refsc.clone()]).and_then(|mut v| v.pop()) {
+        Some(r) => {
+            agg.c.inc("reference_in_pristine_process");
+            r
+        }
+        None => {
+            agg.c.inc("reference_in_worker_process");
+            execute(&refsc)
+        }
+    };
     let mut h = reference.hash;
     agg.c.inc("programs");
     agg.c.inc("executions");
     agg.c.add("statements", program.len() as u64);
     let rp = p_results(&reference);
-    let ref_steps: Vec<u64> = (0..program.len()).map(|i| rp.get(&i).map(|r| r.steps).unwrap_or(0)).collect();
     for r in rp.values() {
         agg.c.inc(&format!("ref_status:{}", r.status.short()));
         if r.status == Status::Panic {
@@ -908,15 +1002,6 @@ pub fn run_one(seed: u64, run: u64, agg: &mut Batch, keep_hashes: bool) {
             }
         }
     }
-    // determinism of the reference itself (same scenario twice must give the same history)
-    if run % 16 == 0 {
-        let again = execute(&refsc);
-        agg.c.inc("executions");
-        if again.hash != reference.hash {
-            agg.violations.push((run, refsc.clone(), Viol { clause: "reference-not-reproducible".into(), detail: "the same scenario executed twice produced different histories".into() }));
-        }
-    }
-    let envs = gen_envs(&mut rng, &program, &inputs, &ref_steps);
     if run < 2 {
         agg.samples.push((
             run,
@@ -957,7 +1042,6 @@ pub fn run_one(seed: u64, run: u64, agg: &mut Batch, keep_hashes: bool) {
         }
         if sc.threads.len() > 1 {
             agg.c.distinct("interleavings", &format!("{:?}", ex.decisions));
-            // statement-level interleaving with another thread also counts
             if ex.decisions.windows(2).any(|w| w[0] != w[1]) {
                 nontrivial = true;
             }
@@ -965,14 +1049,18 @@ pub fn run_one(seed: u64, run: u64, agg: &mut Batch, keep_hashes: bool) {
         for t in &sc.threads {
             agg.c.distinct("hash_seeds", &t.hash_seed.to_string());
         }
-        if matches!(sc.kind.as_str(), "hash-seed" | "clock" | "let-abstract" | "eval-twice") {
+        if matches!(sc.kind.as_str(), "hash-seed" | "clock" | "let-abstract" | "eval-twice") || (sc.kind == "process-history" && !prior.is_empty()) {
             nontrivial = true;
         }
         if nontrivial {
             agg.c.distinct("nontrivial_pairs", &format!("{}|{}", program_shape(&kinds), sc.kind));
         }
         if let Some(v) = judge(&sc, &ex, &reference) {
-            agg.violations.push((run, sc.clone(), v));
+            if agg.violations.len() < 24 {
+                agg.violations.push((run, sc.clone(), v, prior.clone()));
+            } else {
+                agg.c.inc("violations_not_kept");
+            }
         }
     }
     if keep_hashes {
@@ -1031,6 +1119,42 @@ pub fn fixed_corpus() -> Vec<(String, Scenario)> {
     v
 }
 
+
+/// Delta-debug the list of earlier runs a violation depends on.
+fn minimise_history(sc: &Scenario, clause: &str, hist: &History) -> History {
+    let still = |runs: &[u64]| -> bool {
+        let h = History { verif_seed: hist.verif_seed, runs: runs.to_vec() };
+        matches!(judge_fresh(sc, &h), Some(v) if v.clause == clause)
+    };
+    let mut cur = hist.runs.clone();
+    let mut chunk = (cur.len() / 2).max(1);
+    let mut budget = 120;
+    while chunk >= 1 && budget > 0 {
+        let mut i = 0;
+        let mut progress = false;
+        while i < cur.len() && budget > 0 {
+            let mut cand = cur.clone();
+            let end = (i + chunk).min(cand.len());
+            cand.drain(i..end);
+            budget -= 1;
+            if still(&cand) {
+                cur = cand;
+                progress = true;
+            } else {
+                i += chunk;
+            }
+        }
+        if chunk == 1 && !progress {
+            break;
+        }
+        chunk = if progress { chunk } else { chunk / 2 };
+        if chunk == 0 {
+            break;
+        }
+    }
+    History { verif_seed: hist.verif_seed, runs: cur }
+}
+
 pub struct C02Result {
     pub violations: Vec<Violation>,
     pub agg: Batch,
@@ -1047,28 +1171,53 @@ pub fn run_batch(programs: u64) -> C02Result {
     let mut corpus_viols = vec![];
     let corpus = fixed_corpus();
     for (k, (name, sc)) in corpus.iter().enumerate() {
-        let reference = execute(&reference_scenario(&sc.program, &sc.inputs_json));
-        let ex = execute(sc);
-        if let Some(v) = judge(sc, &ex, &reference) {
+        if let Some(v) = judge_fresh(sc, &History::default()) {
             println!("corpus scenario {} violates: {} ({})", name, v.clause, v.detail);
-            corpus_viols.push((1_000_000_000 + k as u64, sc.clone(), v));
+            corpus_viols.push((1_000_000_000 + k as u64, sc.clone(), v, vec![]));
         }
     }
     println!("c02: fixed corpus: {} scenarios, {} violating", corpus.len(), corpus_viols.len());
     corpus_viols.extend(viols);
     let mut out = vec![];
     let mut seen = BTreeSet::new();
-    for (run, sc, v) in corpus_viols.iter() {
-        if !seen.insert(format!("{}|{}", v.clause, sc.kind)) || out.len() >= 10 {
+    for (run, sc, v, prior) in corpus_viols.iter() {
+        if !seen.insert(format!("{}|{}", v.clause, sc.kind)) || out.len() >= 8 {
             continue;
         }
-        let min = shrink(sc, &v.clause);
-        let reference = execute(&reference_scenario(&min.program, &min.inputs_json));
-        let ex = execute(&min);
-        let mv = judge(&min, &ex, &reference).unwrap_or_else(|| v.clone());
+        // 1. is the scenario self-contained (violates in a pristine process, no history)?
+        let mut hist = History { verif_seed: seed, runs: vec![] };
+        let mut reproducible = true;
+        if !matches!(judge_fresh(sc, &hist), Some(ref w) if w.clause == v.clause) {
+            // 2. it depends on what this process evaluated earlier: re-execute those runs first
+            hist.runs = prior.clone();
+            if matches!(judge_fresh(sc, &hist), Some(ref w) if w.clause == v.clause) {
+                hist = minimise_history(sc, &v.clause, &hist);
+            } else {
+                reproducible = false;
+            }
+        }
+        let (min, mv, ex) = if reproducible {
+            SHRINK_HISTORY.with(|h| *h.borrow_mut() = hist.clone());
+            let min = shrink(sc, &v.clause);
+            SHRINK_HISTORY.with(|h| *h.borrow_mut() = History::default());
+            let ex = pristine(&hist, &[min.clone()]).and_then(|mut x| x.pop()).unwrap_or_else(|| execute(&min));
+            let mv = judge_fresh(&min, &hist).unwrap_or_else(|| v.clone());
+            (min, mv, ex)
+        } else {
+            let ex = execute(sc);
+            let mut mv = v.clone();
+            mv.detail = format!("{} [seen in the worker process after {} earlier runs; not reproduced in a fresh process from the recorded history]", mv.detail, prior.len());
+            (sc.clone(), mv, ex)
+        };
         let sig = signature(&min, &mv);
         let name = format!("C02-{}-{}-{:08x}", seed, run, fnv64(format!("{}{}", sig, mv.detail).as_bytes()) as u32);
-        let path = write_replay(&name, &replay_doc(&min, &mv, &ex, seed, *run));
+        let mut doc = replay_doc(&min, &mv, &ex, seed, *run, &hist);
+        if !hist.runs.is_empty() || !reproducible {
+            // the recorded history hash is of the pristine execution; with history the replay
+            // process state differs by construction, so the hash is informational only
+            doc["history_hash"] = json!("");
+        }
+        let path = write_replay(&name, &doc);
         out.push(Violation { property: "C02".into(), clause: mv.clause.clone(), detail: mv.detail.clone(), signature: sig, run: *run, replay: Some(path) });
     }
     if keep {
